@@ -220,6 +220,21 @@ class SymNet:
               if M[v] is not None and base[v] is None and (V is None or v in V)]
         return self.And(cs)
 
+    def rtrap(self, M):
+        """M is a trap space of the time-reversed dynamics: no transition enters M"""
+        key = ("rtrap", M)
+        if key not in self._cache:
+            cs = []
+            for x in self.states:
+                if in_space(x, M):
+                    for v in range(self.n):
+                        if M[v] is not None:
+                            y = flip(x, v)
+                            # y is outside M (differs in the fixed variable v); y -> x would need f_v(y) = M_v
+                            cs.append(self.F[v][y] if y[v] else fNot(self.F[v][y]))
+            self._cache[key] = self.And(cs)
+        return self._cache[key]
+
     def is_source(self, v, S):
         """f_v restricted to S is the identity on x_v"""
         key = ("src", v, S)
@@ -273,13 +288,28 @@ class SymNet:
             out.append(M)
         return out
 
-    def trappist_spec(self, problem, base, V=None, ensure=None, srcs=(), avoid=()):
+    def trappist_spec(self, problem, base, V=None, ensure=None, srcs=(), avoid=(), reverse=False):
         """dict M -> formula 'M is in the answer set of trappist(problem)' for the network restricted to
         base (variables V).  Mirrors the documented contract: max = inclusion-maximal non-trivial trap
-        spaces among those fixing srcs; min = inclusion-minimal; fix = fixed points."""
-        key = ("trappist", problem, base, None if V is None else tuple(sorted(V)), ensure, tuple(srcs), tuple(avoid))
+        spaces among those fixing srcs; min = inclusion-minimal; fix = fixed points.  reverse: time-reversed
+        network (whole network only)."""
+        key = ("trappist", problem, base, None if V is None else tuple(sorted(V)), ensure, tuple(srcs), tuple(avoid), reverse)
         if key in self._cache:
             return self._cache[key]
+        if reverse:
+            if V is not None or any(b is not None for b in base):
+                raise ValueError("time reversal is specified for the whole network only")
+            saved = self.trap_rel
+            self.trap_rel = lambda M, base_, V_=None: self.rtrap(M)
+            # build with the reversed trap predicate (no caching under the forward key)
+            try:
+                self._cache.pop(("trappist", problem, base, None, ensure, tuple(srcs), tuple(avoid), False), None)
+                res = SymNet.trappist_spec(self, problem, base, V, ensure, srcs, avoid, reverse=False)
+                self._cache.pop(("trappist", problem, base, None, ensure, tuple(srcs), tuple(avoid), False), None)
+            finally:
+                self.trap_rel = saved
+            self._cache[key] = res
+            return res
         netvars = [v for v in range(self.n) if base[v] is None and (V is None or v in V)]
         if problem == "max":
             ens = ensure or (None,) * self.n
@@ -754,6 +784,18 @@ def component(name, tag):
         c = SymNet(2, tag=tag)
         mts = [specs.is_mintrap(c, M) for M in c.subspaces]
         c.family_constraints.append(z3.PbGe([(f, 1) for f in mts], 2))
+        return c
+    if name == "NEST4":
+        # 4 variables (x, A, B, C): x = 1 is a trap space that contains a motif-avoidant attractor, while every attractor
+        # with x = 0 lies in a minimal trap space: the motif-avoidant attractor sits at an *inner* node of the component's
+        # own succession diagram, not at its root
+        from . import specs
+        c = SymNet(4, tag=tag)
+        inmin = lambda st: fOr([specs.is_mintrap(c, M) for M in c.subspaces if in_space(st, M)])
+        c.family_constraints.append(c.trap((1, None, None, None)))
+        c.family_constraints.append(fOr([fAnd([c.attr(st), fNot(inmin(st))]) for st in c.states if st[0] == 1]))
+        c.family_constraints += [z3.Implies(c.attr(st), inmin(st)) for st in c.states if st[0] == 0]
+        c.family_constraints += c.take_pending_defs()
         return c
     if name == "SRC1":
         c = SymNet(1, tag=tag)
